@@ -1,4 +1,5 @@
 import ApdVerif.Model.Conv
+import ApdVerif.Lemmas.C17Lemmas
 /-!
 # C17 — integer conversions and Modf are exact
 -/
@@ -14,7 +15,25 @@ theorem C17_modf (d : Dec) (hd : d.form = .finite) :
     m.2.coeff < 10 ^ (-m.2.exp).toNat ∧
     (if d.exp > 0 then m.1 = d ∧ m.2.coeff = 0
      else m.1.exp = 0 ∧ m.2.exp = d.exp ∧ m.1.coeff * 10 ^ (-d.exp).toNat + m.2.coeff = d.coeff) := by
-  sorry
+  rcases d with ⟨f, n, e, c⟩
+  simp only at hd; subst hd
+  by_cases h1 : e > 0
+  · simp [modf, h1]; omega
+  · by_cases h2 : -e > (ndigits c : Int)
+    · have hlt : c < 10 ^ (-e).toNat := by
+        by_cases hc : c = 0
+        · subst hc; exact Nat.pow_pos (by decide)
+        · have a := (ndigits_spec c (by omega)).2
+          have : 10 ^ ndigits c ≤ 10 ^ (-e).toNat := Nat.pow_le_pow_right (by decide) (by omega)
+          omega
+      simp [modf, h1, h2, hlt]
+      omega
+    · have hp : 0 < 10 ^ (-e).toNat := Nat.pow_pos (by decide)
+      have := Nat.mod_lt c hp
+      have := Nat.div_add_mod c (10 ^ (-e).toNat)
+      simp [modf, h1, h2]
+      refine ⟨by omega, by assumption, ?_⟩
+      rw [Nat.mul_comm]; assumption
 
 /-- the integer value of a finite decimal with zero fractional part -/
 def intValue (d : Dec) : Int :=
@@ -23,24 +42,96 @@ def intValue (d : Dec) : Int :=
 /-- `d` denotes an integer -/
 def IsInteger (d : Dec) : Prop := d.exp ≥ 0 ∨ d.coeff % 10 ^ (-d.exp).toNat = 0
 
+/-- what `modf` delivers when the fractional part is zero -/
+theorem modf_int (d : Dec) (hd : d.form = .finite) :
+    ((modf d).2.isZero = true ↔ IsInteger d) ∧
+    ((modf d).2.isZero = true → ∃ E C,
+        (modf d).1 = { form := .finite, neg := d.neg, exp := E, coeff := C } ∧ 0 ≤ E ∧
+        C * 10 ^ E.toNat = d.coeff * 10 ^ d.exp.toNat / 10 ^ (-d.exp).toNat) := by
+  rcases d with ⟨f, n, e, c⟩
+  simp only at hd; subst hd
+  unfold IsInteger
+  by_cases h1 : e > 0
+  · have h0 : (-e).toNat = 0 := by omega
+    simp [modf, h1, Dec.isZero, h0]
+    exact ⟨by omega, by omega⟩
+  · have he : e.toNat = 0 := by omega
+    by_cases h2 : -e > (ndigits c : Int)
+    · have hp := ndigits_pos c
+      have hlt : c < 10 ^ (-e).toNat := by
+        by_cases hc : c = 0
+        · subst hc; exact Nat.pow_pos (by decide)
+        · have a := (ndigits_spec c (by omega)).2
+          have : 10 ^ ndigits c ≤ 10 ^ (-e).toNat := Nat.pow_le_pow_right (by decide) (by omega)
+          omega
+      have hmod : c % 10 ^ (-e).toNat = c := Nat.mod_eq_of_lt hlt
+      simp [modf, h1, h2, Dec.isZero, hmod, he]
+      constructor
+      · intro h; omega
+      · intro h; subst h; simp
+    · simp [modf, h1, h2, Dec.isZero, he]
+      intro h
+      have : e = 0 := by omega
+      subst this
+      simp [Nat.mod_one]
+
 /-- Int64 succeeds exactly on integers within `[MinInt64, MaxInt64]` and returns that integer;
 never a wrapped value. -/
 theorem C17_int64 (d : Dec) (hd : d.form = .finite) (v : Int) :
     int64Op d = some v ↔ (IsInteger d ∧ -2 ^ 63 ≤ intValue d ∧ intValue d ≤ 2 ^ 63 - 1 ∧ v = intValue d) := by
-  sorry
+  obtain ⟨hiff, hex⟩ := modf_int d hd
+  unfold int64Op
+  simp only [hd, bne_self_eq_false, Bool.false_eq_true, if_false]
+  by_cases hz : (modf d).2.isZero = true
+  · obtain ⟨E, C, hm, hE, hN⟩ := hex hz
+    have hI := hiff.1 hz
+    have c1 := cmp_intExp d.neg E C false (2 ^ 63 - 1) hE (by norm_num)
+    have c2 := cmp_intExp d.neg E C true (2 ^ 63) hE (by norm_num)
+    change Dec.cmp _ decMaxInt64 = _ at c1
+    change Dec.cmp _ decMinInt64 = _ at c2
+    have hv : intValue d = sval d.neg (C * 10 ^ E.toNat) := by
+      unfold intValue sval; rw [hN]
+    simp only [hz, hm, c1, c2, wrap64_mod, mul10Loop_wrap, hv, hI, true_and, Bool.not_true,
+      Bool.false_eq_true, if_false]
+    have hcast : ((C : Int) * 10 ^ E.toNat) = ((C * 10 ^ E.toNat : Nat) : Int) := by push_cast; rfl
+    rw [hcast]
+    generalize C * 10 ^ E.toNat = N
+    unfold cmpInt sval
+    cases d.neg <;> simp
+    · by_cases h : N ≤ 9223372036854775807
+      · rw [wrap64_id _ (by omega) (by omega)]
+        split_ifs <;> omega
+      · split_ifs <;> omega
+    · rw [wrap64_neg]
+      by_cases h : N ≤ 9223372036854775808
+      · rw [wrap64_id _ (by omega) (by omega)]
+        split_ifs <;> omega
+      · split_ifs <;> omega
+  · have hI : ¬ IsInteger d := fun h => hz (hiff.2 h)
+    simp [hz, hI]
 
 theorem C17_int64_nonfinite (d : Dec) (hd : d.form ≠ .finite) : int64Op d = none := by
-  sorry
+  unfold int64Op
+  simp [hd]
 
 /-- SetInt64 / New / SetFinite / NewWithBigInt represent their argument exactly -/
 theorem C17_setFinite (x e : Int) :
     let d := setFinite x e
     d.form = .finite ∧ d.exp = e ∧ (if d.neg then -1 else 1) * (d.coeff : Int) = x := by
-  sorry
+  simp only [setFinite]
+  refine ⟨trivial, trivial, ?_⟩
+  by_cases h : x < 0
+  · simp only [h, decide_true, if_true]; omega
+  · simp only [h, decide_false, Bool.false_eq_true, if_false]; omega
 
 example : int64Op { coeff := 9223372036854775808, neg := true } = some (-9223372036854775808) := by decide
 example : int64Op { coeff := 9223372036854775808 } = none := by decide
 example : int64Op { coeff := 922337203685477581, exp := 1 } = none := by decide
 example : int64Op { coeff := 1500, exp := -2 } = some 15 := by decide
+
+#print axioms C17_modf
+#print axioms C17_int64
+#print axioms C17_int64_nonfinite
+#print axioms C17_setFinite
 
 end Apd.Props
